@@ -56,6 +56,7 @@ pub fn check(c: &Case, ctx: &mut Ctx) -> Result<(), Failure> {
         fp.u(*len as u64);
         for _ in 0..*len {
             let bar = gen.bar();
+            crate::tele::step(&mut a, &c.cfg);
             if scalar {
                 a.next_scalar(bar.c);
             } else {
@@ -68,6 +69,7 @@ pub fn check(c: &Case, ctx: &mut Ctx) -> Result<(), Failure> {
         fp.f(bar.c);
         fp.f(bar.h);
         fp.f(bar.v);
+        crate::tele::step(&mut a, &c.cfg);
         if scalar {
             a.next_scalar(bar.c);
         } else {
@@ -83,6 +85,7 @@ pub fn check(c: &Case, ctx: &mut Ctx) -> Result<(), Failure> {
         fp.f(bar.c);
         fp.f(bar.h);
         fp.f(bar.v);
+        crate::tele::step(&mut a, &c.cfg);
         let (oa, ob) = if scalar { (a.next_scalar(bar.c), b.next_scalar(bar.c)) } else { (a.next_bar(bar), b.next_bar(bar)) };
         track(bar, &mut big, &mut flow_big, &mut prev);
         bhist.push(*bar);
@@ -250,6 +253,9 @@ pub fn run(g: &mut Global) {
         &check,
     );
     g.random("random", g.tier.pick(50000, 3000000), &strategy, &check);
+    // identity events (tele.rs): at one or two steps the instance is replaced by its clone, by a used instance
+    // (same or longer periods) that clone_from()s it, or by its serde round trip; nothing may change
+    g.random("events", g.tier.pick(20000, 400000), &|| crate::tele::wrap(strategy()), &|t: &crate::tele::TCase<Case>, ctx: &mut Ctx| crate::tele::check_wrapped(t, ctx, t.case.gen_prefix.as_ref().map(|g| g.1).unwrap_or(0) + t.case.prefix.len() + t.case.suffix.len(), t.case.cfg.n(), check));
     // windows far beyond 1024 slots: prefix of about two windows at several ring phases, suffix w or w+1
     let bigp: Vec<(Kind, usize)> = {
         let mut v = vec![];
